@@ -183,3 +183,8 @@ def run(ctx):
     check_tags(ctx, prog)
     check_vsize(ctx, prog)
     check_clobber(ctx, prog)
+    # the size function and the encoder take each name's length from the cached name_len: it must be the stored name's
+    from rules import r4inplace
+    ctx.rule("R4.namelen", "every cached name_len (read by the size function and the encoder) is the length of the stored name")
+    nprog = ctx.program(names=["ncmpio_dim.c", "ncmpio_var.c", "ncmpio_attr.c", "ncmpio_header_get.c"])
+    r4inplace.check_namelen(ctx, nprog, "R4.namelen")
